@@ -36,6 +36,7 @@ type LedgerView struct {
 	Schemas map[string]*ledger.Schema
 	State   string
 	Feats   map[string]string
+	Moves   []*MoveRow // only written in the real-SQL runs
 }
 
 func ViewOf(snap map[rowKey]any) map[string]*LedgerView {
@@ -61,6 +62,8 @@ func ViewOf(snap map[rowKey]any) map[string]*LedgerView {
 			v.Logs = append(v.Logs, val.(*LogRow))
 		case "acct":
 			get(k.Ledger).Accts[k.Key] = val.(*AcctRow)
+		case "move":
+			get(k.Ledger).Moves = append(get(k.Ledger).Moves, val.(*MoveRow))
 		case "vol":
 			get(k.Ledger).Vols[k.Key] = val.(*VolRow)
 		case "schema":
@@ -568,6 +571,33 @@ func CheckConservation(prop string, views map[string]*LedgerView, when string) [
 		for _, a := range sortedKeys(in) {
 			if in[a].Cmp(out[a]) != 0 {
 				vs = append(vs, Violation{prop, "sum-of-balances-is-zero", fmt.Sprintf("%s: ledger %s asset %s: total input %s != total output %s", when, name, a, in[a], out[a])})
+			}
+		}
+		// conservation at any point in time: at every instant (effective date, and insertion date) the moves
+		// recorded up to that instant credit as much as they debit, per asset - i.e. what is taken from sources
+		// at an instant is what destinations receive at that same instant
+		for _, mode := range []string{"effective", "insertion"} {
+			net := map[string]*big.Int{}
+			for _, m := range v.Moves {
+				d := m.EffectiveDate
+				if mode == "insertion" {
+					d = m.InsertionDate
+				}
+				k := m.Asset + " at " + d.Time.UTC().Format("2006-01-02T15:04:05.999999Z")
+				if net[k] == nil {
+					net[k] = new(big.Int)
+				}
+				if m.IsSource {
+					net[k].Sub(net[k], m.Amount)
+				} else {
+					net[k].Add(net[k], m.Amount)
+				}
+			}
+			for _, k := range sortedKeys(net) {
+				if net[k].Sign() != 0 {
+					vs = append(vs, Violation{prop, "sum-of-balances-is-zero-at-any-point-in-time", fmt.Sprintf("%s: ledger %s asset %s (%s date): the moves dated that instant credit %s more than they debit, so volumes read at a point in time around it do not sum to zero", when, name, k, mode, net[k])})
+					break
+				}
 			}
 		}
 		// independent fold of the committed transactions' postings
